@@ -7,6 +7,7 @@ import (
 	"runtime/debug"
 	"sort"
 	"strings"
+	"sync"
 	"testing"
 	"time"
 )
@@ -224,4 +225,28 @@ func SortedKeys[V any](m map[string]V) []string {
 	}
 	sort.Strings(ks)
 	return ks
+}
+
+// Process-wide counters, for code that has no Run at hand (merged into the evidence counters; not part of
+// any run's event log).
+var (
+	globalMu     sync.Mutex
+	globalCounts = map[string]int64{}
+)
+
+// GlobalCount adds d to a process-wide counter.
+func GlobalCount(name string, d int64) {
+	globalMu.Lock()
+	globalCounts[name] += d
+	globalMu.Unlock()
+}
+
+func takeGlobalCounts() map[string]int64 {
+	globalMu.Lock()
+	defer globalMu.Unlock()
+	out := map[string]int64{}
+	for k, v := range globalCounts {
+		out[k] = v
+	}
+	return out
 }
